@@ -860,6 +860,8 @@ def signature(case, out, why):
     if t[0] == "fe":
         g = parse_fe_case(case)
         return "fe:%s:%s" % (g["kind"], (why or "")[:40])
+    if t[0] in ("hk", "hkasm"):
+        return "%s:%s" % (t[0], (why or "")[:50])
     if t[0] in ("trace3", "trpt"):
         return "%s:%s" % (t[0], (why or "")[:50])
     if t[0] == "vox":
@@ -1936,6 +1938,122 @@ CORPUS_TRACE3 = ["trace3 hexa 0 2 6 0/1 1/1 0/1 7 0/1 1/2 0/1 simpson 2 0 %d 1 1
                  "10 2/1 -1/1 1/1 3/1 0/1 0/1 0/1 0/1 0/1 0/1"]
 
 
+
+# ---------------------------------------------------------------------------------------------
+# hooks stream: user-defined operators / functionals whose prepare() / finish() hooks do real work, on every route
+# ---------------------------------------------------------------------------------------------
+
+def gen_hk_case(rng):
+    level = rng.randint(0, 2)
+    h = F(1, 2 ** level)
+    moves = []
+    if level >= 1 and rng.random() < 0.6:
+        for _ in range(rng.randint(1, 3)):
+            moves.append((rng.randrange(64), [F(rng.randint(-5, 5), 40) * h for _ in range(2)]))
+    rule = rng.choice(["newton-cotes-closed:3", "simpson", "newton-cotes-closed:4", "newton-cotes-closed:5"])
+    mv = " ".join("%d %s" % (i, " ".join(fs(x) for x in dl)) for i, dl in moves)
+    return " ".join(("hk %d %d %s %s" % (level, len(moves), mv, rule)).split())
+
+
+def parse_hk_out(out):
+    o = Tk(out)
+    o.expect("FE")
+    dim, nv = o.nat(), o.nat()
+    verts = [[o.q() for _ in range(dim)] for _ in range(nv)]
+    nc, nvpc = o.nat(), o.nat()
+    cells = [[o.nat() for _ in range(nvpc)] for _ in range(nc)]
+    sec = {}
+    while o.peek() is not None:
+        tag = o.tok()
+        vals = o.qlst()
+        o.expect("LOG")
+        n = o.nat()
+        log = [(int(o.tok()), o.nat(), o.nat()) for _ in range(n)]
+        sec[tag] = (vals, log)
+    return verts, cells, sec
+
+
+def hk_coefs(verts, cells):
+    return [1 + t + verts[c[0]][0] for t, c in enumerate(cells)]
+
+
+def quad_area(verts, c):
+    pg = [verts[c[0]], verts[c[1]], verts[c[3]], verts[c[2]]]
+    return abs(sum(pg[i][0] * pg[(i + 1) % 4][1] - pg[(i + 1) % 4][0] * pg[i][1] for i in range(4))) / 2
+
+
+def oracle_hk(case, out):
+    try:
+        if is_abnormal(out):
+            return "assembly of a user-defined operator ended with " + out
+        verts, cells, sec = parse_hk_out(out)
+        if not mesh_valid(2, "h", verts, cells):
+            return None
+        nc = len(cells)
+        coef = hk_coefs(verts, cells)
+        exp = sum(coef[t] * quad_area(verts, cells[t]) for t in range(nc))
+        for a, b, what in (("C1", "J1", "assemble_matrix1 and BilinearOperatorMatrixAssemblyJob1"),
+                           ("C2", "J2", "assemble_matrix2 and BilinearOperatorMatrixAssemblyJob2"),
+                           ("CF", "JF", "LinearFunctionalAssembler and LinearFunctionalAssemblyJob")):
+            if sec[a][0] != sec[b][0]:
+                return "%s give different results for an operator with a per-cell coefficient" % what
+        for tag in ("C1", "J1", "C2", "J2", "CF", "JF"):
+            vals, log = sec[tag]
+            if len(log) != nc:
+                return "%s: %d prepare() calls for %d cells" % (tag, len(log), nc)
+            if sorted(x[0] for x in log) != list(range(nc)):
+                return "%s: prepare() saw the cell indices %s (unprepared trafo evaluator = -1)" % (tag, [x[0] for x in log][:8])
+            if tag[0] == "C" and [x[0] for x in log] != list(range(nc)):
+                return "%s: cells are not visited in order" % tag
+            if any(x[1] == 0 or x[2] != 1 for x in log) or len(set(x[1] for x in log)) != 1:
+                return "%s: hook sequence is not prepare, evals, finish for every cell" % tag
+            if sum(vals) != exp:
+                return "%s: entries sum to %s, sum_T c_T |T| = %s" % (tag, sum(vals), exp)
+        # trace assembler: boundary facets, the hook must see the adjacent cell
+        vals, log = sec["TR"]
+        edges = {}
+        for t, c in enumerate(cells):
+            for a, b in ((0, 1), (2, 3), (0, 2), (1, 3)):
+                edges.setdefault(frozenset((c[a], c[b])), []).append(t)
+        expt = F(0)
+        nb = 0
+        for e, ts in edges.items():
+            if len(ts) == 1:
+                a, b = [verts[v] for v in e]
+                expt += coef[ts[0]] * (abs(a[0] - b[0]) + abs(a[1] - b[1]))    # boundary edges are axis-parallel
+                nb += 1
+        if len(log) != nb or any(not (0 <= x[0] < nc) or x[2] != 1 for x in log):
+            return "TR: hook sequence of the trace assembler is wrong (%d entries for %d boundary facets)" % (len(log), nb)
+        if sum(vals) != expt:
+            return "TR: entries sum to %s, sum over the boundary facets of c_T |f| = %s" % (sum(vals), expt)
+        return None
+    except (IndexError, ValueError, AssertionError, KeyError) as e:
+        return "unparsable implementation output (%s): %s" % (repr(e), out[:200])
+
+
+def hkasm_lines(case, out, rec1, rec2):
+    """four model-compared lines (routes c1, j1, c2, j2) from the mesh of the hk run and the identity recordings"""
+    if is_abnormal(out) or is_abnormal(rec1) or is_abnormal(rec2):
+        return []
+    verts, cells, _ = parse_hk_out(out)
+    coef = fmt_qlist(hk_coefs(verts, cells))
+    cfg = " ".join(case.split()[1:])
+    res = []
+    for route, rec, tag in (("c1", rec1, "M1"), ("j1", rec1, "M1"), ("c2", rec2, "M2"), ("j2", rec2, "M2")):
+        o = Tk(rec)
+        o.expect("T")
+        nT = o.nat()
+        o.expect("S")
+        nS = o.nat()
+        o.expect("R")
+        calls = [(F(1), r, c, v) for (_, r, c, v) in o.calls()]
+        res.append("hkasm %s %s REC %s %d %d %s COEF %s" % (route, cfg, tag, nT, nS, fmt_calls(calls), coef))
+    return res
+
+
+CORPUS_HK = ["hk 1 1 0 1/10 -1/20 newton-cotes-closed:3", "hk 2 0 simpson", "hk 0 0 newton-cotes-closed:3"]
+
+
 CORPUS_SYNTH = [
     "asmb 1 2 2 2 2 2 2 0 1 1 1 2 0 1 1 1 2 0 1 1/1 16 1/1 0/1 0/1 1/1 1/1 2/1 0/1 1/1 1/1 1/1 0/1 1/1 1/1 3/1 0/1 1/1 2/1 4 1/1 5/1 0/1 1/1",
     # F3 (open, c16-edge:F3): no cell has both a test and a trial dof -> entry-free matrix -> null row_ptr dereferenced
@@ -1972,7 +2090,7 @@ def main(argv):
                                      extra_srcs=[os.path.join(hdir, "fe_%s.cpp" % s) for s in ("line", "quad", "tria", "hexa", "tetra")] +
                                      [os.path.join(hdir, "bg_%s.cpp" % s) for s in ("quad", "tria", "hexa")] +
                                      [os.path.join(hdir, "ops_%s.cpp" % s) for s in ("quad", "tria", "hexa")] +
-                                     [os.path.join(hdir, "trace_quad.cpp"), os.path.join(hdir, "trace3d.cpp")])
+                                     [os.path.join(hdir, "trace_quad.cpp"), os.path.join(hdir, "trace3d.cpp"), os.path.join(hdir, "hooks.cpp")])
     if binary is None:
         v = [{"property": PROP, "kind": "harness-build-failure", "detail": err, "failing_input": None,
               "broken": "harness c16 does not compile against the current tree"}]
@@ -1980,7 +2098,9 @@ def main(argv):
     quick = args.tier == "quick"
     if args.replay:
         rc = json.load(open(args.replay))["input"]
-        synth = [rc] if rc.split()[0] not in ("fe", "feasm", "bg", "bgsd", "ops", "trace", "trace3", "trpt", "hist", "histj", "flocal", "vox") else []
+        synth = [rc] if rc.split()[0] not in ("fe", "feasm", "bg", "bgsd", "ops", "trace", "trace3", "trpt", "hist", "histj", "flocal", "vox", "hk", "hkasm") else []
+        hk = [rc] if rc.split()[0] == "hk" else []
+        hkasm = [rc] if rc.split()[0] == "hkasm" else []
         vox = [rc] if rc.split()[0] == "vox" else []
         hist = [rc] if rc.split()[0] in ("hist", "histj") else []
         flocal = [rc] if rc.split()[0] == "flocal" else []
@@ -2000,6 +2120,8 @@ def main(argv):
         ops += CORPUS_TRACE + [gen_trace_case(rng) for _ in range(60 if quick else 600)]
         ops += CORPUS_TRACE3 + [gen_trace3_case(rng, args.tier) for _ in range(50 if quick else 700)]
         trpt = trpt_cases()
+        hk = CORPUS_HK + [gen_hk_case(rng) for _ in range(40 if quick else 400)]
+        hkasm = None
         hist = None
         flocal = None
         vox = ["vox poisson 2 1 auto-degree:5", "vox defo 2 1 auto-degree:5 0.78",
@@ -2064,6 +2186,22 @@ def main(argv):
                     flocal.append(l)
         except Exception as e:
             vlib.log("local pre-run failed: %s" % e)
+    if hkasm is None:
+        hkasm = []
+        try:
+            def cfg_of(cse, kind, tsp, ssp):
+                t = cse.split()
+                return "ferec quad %s %s %s %s 0 %s 1/1 1 0/1 1 0/1" % (" ".join(t[1:-1]), kind, tsp, ssp, t[-1])
+            pre = vlib.run_lines([binary], hk + [cfg_of(c_, "mass", "L1", "L1") for c_ in hk] +
+                                 [cfg_of(c_, "mass2", "L2", "D0") for c_ in hk], env=env)
+            n_ = len(hk)
+            for k_, cse in enumerate(hk):
+                try:
+                    hkasm += hkasm_lines(cse, pre[k_], pre[n_ + k_], pre[2 * n_ + k_])
+                except Exception:
+                    pass
+        except Exception as e:
+            vlib.log("hooks pre-run failed: %s" % e)
     vbinary, verr = vlib.build_harness("c16v", os.path.join(vlib.VERIF, "harness", "c16v", "main.cpp"),
                                        units=vlib.BASE_UNITS + VOXEL_UNITS)
     if vbinary is None:
@@ -2100,6 +2238,11 @@ def main(argv):
                     describe=lambda c: (["op:trace3", "shape:" + c.split()[1], "moved" if c.split()[3] != "0" else "unmoved"]
                                         if c.startswith("trace3") else ["op:trace"] if c.startswith("trace") else describe_ops(c)),
                     signature=signature, env=env),
+        vlib.Stream("hooks", hk, [binary], None, oracle=oracle_hk, nontrivial=lambda c: int(c.split()[1]) >= 1,
+                    describe=lambda c: ["level:" + c.split()[1], "moved" if c.split()[2] != "0" else "unmoved"],
+                    signature=signature, env=env),
+        vlib.Stream("hooks-model", hkasm, [binary], vlib.driver_cmd(PROP), oracle=oracle_feasm, nontrivial=lambda c: True,
+                    describe=lambda c: ["route:" + c.split()[1]], signature=signature, env=env),
         vlib.Stream("trace-point", trpt, [binary], vlib.driver_cmd(PROP), oracle=oracle_trpt, nontrivial=lambda c: True,
                     describe=lambda c: ["shape:" + c.split()[1], "symmetry:" + c.split()[3]], signature=signature, env=env),
         vlib.Stream("burgers-model", bgsd, [binary], vlib.driver_cmd(PROP), oracle=oracle_bgsd,
@@ -2121,6 +2264,9 @@ def main(argv):
             "trace assembler facet selection incl. clear(); trace assembler in 3-D (hexa incl. planar non-parallelogram "
             "faces, tetra levels 0-1) with every facet stored in an independently chosen admissible vertex order: facet "
             "mass matrix / facet functional against exact polygon integrals, jump operator of the continuous space = 0; "
+            "hooks: user-defined mass operator / functional whose Evaluator::prepare() reads the cell index and a cell "
+            "vertex into a per-cell coefficient (finish() poisons it) on assemble_matrix1/2, Job1/Job2, functional routes and "
+            "the trace assembler: route equality, sum_T c_T |T|, hook log; hooks-model: each route vs the model's hook loop; "
             "trace-point: orientation code and mapped facet point for all faces x all symmetries vs the model. every fe/burgers/operators/trace case runs a discarded "
             "warm-up request of the same template instantiations (other rule, other coefficients) before the judged one; "
             "history: requests [warm-up, real, warm-up, real, real] in one process, classic and job route, all five "
